@@ -138,6 +138,79 @@ inline void use(unsigned x) { sink += x; }
 inline void use(double x) { sink += (x == x) ? 1 : 0; }
 inline void use(const std::vector<std::string>& v) { for (auto& s : v) sink += s.size(); }
 
+// An oracle of a target found the library in a state / with a result that the property excludes (a table whose name lists
+// and cells disagree: the next by-name access indexes past a column; an integer conversion that wrapped).  Not a
+// bpp::Exception on purpose: both engines classify it as a foreign exception, i.e. a violation.
+struct InvariantBroken : std::logic_error
+{
+  explicit InvariantBroken(const std::string& m) : std::logic_error(m) {}
+};
+
+// Number conversion oracle.  For a string of the strict integer grammar  -?D+ ( S +? D+ )?  (D decimal digit, S the
+// scientific-notation character, neither a digit nor a sign) the denoted value is mantissa * 10^exponent, computed here
+// on the digits with saturating integer arithmetic (independent of the library's stream / floating point route).
+// "Returns a value or raises" + "no signed overflow": when toInt returns for such a string, the result is the denoted
+// value if that fits an int; for a value outside the int range the call must raise, or at most hand back the saturated
+// bound of the same sign (what the documented stream extraction stores) - a result of the other sign / a wrapped value
+// is the visible trace of an overflowing conversion.
+inline bool strictInteger(const std::string& s, char sci, bool& negative, unsigned long long& magnitude /* saturates at 4e18 */)
+{
+  if ((sci >= '0' && sci <= '9') || sci == '-' || sci == '+') return false;
+  const unsigned long long CAP = 4000000000000000000ULL;
+  size_t i = 0;
+  negative = false;
+  if (i < s.size() && s[i] == '-') { negative = true; ++i; }
+  size_t d0 = i;
+  unsigned long long m = 0;
+  while (i < s.size() && s[i] >= '0' && s[i] <= '9') { if (m < CAP) m = m * 10 + static_cast<unsigned long long>(s[i] - '0'); if (m > CAP) m = CAP; ++i; }
+  if (i == d0) return false;
+  unsigned long long ex = 0;
+  if (i < s.size())
+  {
+    if (s[i] != sci) return false;
+    ++i;
+    if (i < s.size() && s[i] == '+') ++i;
+    size_t e0 = i;
+    while (i < s.size() && s[i] >= '0' && s[i] <= '9') { if (ex < 100000) ex = ex * 10 + static_cast<unsigned long long>(s[i] - '0'); ++i; }
+    if (i == e0 || i != s.size()) return false;
+  }
+  for (unsigned long long k = 0; k < ex && m != 0 && m < CAP; ++k) { m = (m > CAP / 10) ? CAP : m * 10; }
+  magnitude = m;
+  return true;
+}
+inline int checkedToInt(const std::string& s, char sci)
+{
+  int v = bpp::TextTools::toInt(s, sci); // may raise: fine
+  bool neg = false;
+  unsigned long long mag = 0;
+  if (strictInteger(s, sci, neg, mag))
+  {
+    long long want = neg ? (mag > 2147483648ULL ? -2147483648LL : -static_cast<long long>(mag)) : (mag > 2147483647ULL ? 2147483647LL : static_cast<long long>(mag));
+    bool inRange = neg ? mag <= 2147483648ULL : mag <= 2147483647ULL;
+    if (static_cast<long long>(v) != want)
+      throw InvariantBroken(std::string(inRange ? "toInt-wrong-value" : "toInt-out-of-range-wrapped") + ": toInt('" + s + "', sci=" + std::to_string(static_cast<int>(sci)) + ") returned " + std::to_string(v)
+          + " for the value " + (neg ? "-" : "") + std::to_string(mag) + (mag >= 4000000000000000000ULL ? "(or more)" : "") + (inRange ? "" : ", which is outside the int range (must raise)"));
+  }
+  return v;
+}
+
+// Table invariants after every editing step, accepted or rejected: as many row names as rows (when the table has row
+// names), as many column names as columns, every column as long as the row count - otherwise the next by-name / by-index
+// access indexes past a column.  Then every name the table reports is used for a by-name read (sanitizer / hardened-STL
+// clean; a bpp::Exception is tolerated).
+inline void checkTable(const bpp::DataTable& dt, const std::string& after)
+{
+  size_t nr = dt.getNumberOfRows(), nc = dt.getNumberOfColumns();
+  std::vector<std::string> rn, cn;
+  if (dt.hasRowNames()) { rn = dt.getRowNames(); if (rn.size() != nr) throw InvariantBroken("table-row-names: " + std::to_string(rn.size()) + " row names for " + std::to_string(nr) + " rows after " + after); }
+  if (dt.hasColumnNames()) { cn = dt.getColumnNames(); if (cn.size() != nc) throw InvariantBroken("table-column-names: " + std::to_string(cn.size()) + " column names for " + std::to_string(nc) + " columns after " + after); }
+  for (size_t j = 0; j < nc; ++j)
+    if (dt.getColumn(j).size() != nr) throw InvariantBroken("table-column-length: column " + std::to_string(j) + " has " + std::to_string(dt.getColumn(j).size()) + " cells for " + std::to_string(nr) + " rows after " + after);
+  auto tryIt = [](const std::function<void()>& f) { try { f(); } catch (bpp::Exception&) {} };
+  for (auto& n : rn) { tryIt([&] { use(dt.hasRow(n)); use(dt.getRow(n)); }); if (nc) tryIt([&] { use(dt(n, nc - 1)); }); if (!cn.empty()) tryIt([&] { use(dt(n, cn[0])); }); }
+  for (auto& n : cn) { tryIt([&] { use(dt.hasColumn(n)); use(dt.getColumn(n)); }); if (nr) tryIt([&] { use(dt(nr - 1, n)); }); }
+}
+
 // ------------------------------------------------------------------ 1. character and string utilities
 inline void t_text(In& in)
 {
@@ -157,7 +230,7 @@ inline void t_text(In& in)
   case 2: { std::string s = in.rest(); use(TextTools::removeNewLines(s)); use(TextTools::removeLastNewLines(s)); break; }
   case 3: { char dec = in.chr(".,e-"), sci = in.chr("eE.d-"); std::string s = in.rest(); use(TextTools::isDecimalNumber(s, dec, sci)); use(TextTools::isDecimalInteger(s, sci)); break; }
   case 4: { char dec = in.chr(".,e-"), sci = in.chr("eE.d-"); std::string s = in.rest(); use(TextTools::toDouble(s, dec, sci)); break; }
-  case 5: { char sci = in.chr("eE.d-"); std::string s = in.rest(); use(static_cast<size_t>(TextTools::toInt(s, sci))); break; }
+  case 5: { char sci = in.chr("eE.d-"); std::string s = in.rest(); use(static_cast<size_t>(checkedToInt(s, sci))); break; }
   case 6: { std::string s = in.rest(); use(TextTools::fromString<double>(s)); use(static_cast<size_t>(TextTools::fromString<int>(s))); use(TextTools::to<unsigned>(s)); use(TextTools::fromString<std::string>(s)); break; }
   case 7: { size_t k = in.byte(); char fill = in.chr(" .0"); std::string s = in.rest(); use(TextTools::resizeRight(s, k, fill)); use(TextTools::resizeLeft(s, k, fill)); break; }
   case 8: { size_t k = in.byte(); std::string s = in.rest(); use(TextTools::split(s, k)); break; }
@@ -184,7 +257,7 @@ inline void t_text(In& in)
     std::string s = in.rest();
     std::string t = TextTools::removeSurroundingWhiteSpaces(s);
     if (TextTools::isDecimalNumber(t)) use(TextTools::toDouble(t));
-    if (TextTools::isDecimalInteger(t)) use(static_cast<size_t>(TextTools::toInt(t)));
+    if (TextTools::isDecimalInteger(t)) use(static_cast<size_t>(checkedToInt(t, 'e')));
     use(TextTools::removeSubstrings(t, '[', ']'));
   }
   }
@@ -460,6 +533,7 @@ inline void t_table(In& in)
   std::unique_ptr<DataTable> dt = DataTable::read(is, sep, header, rowNames);
   size_t nr = dt->getNumberOfRows(), nc = dt->getNumberOfColumns();
   use(nr); use(nc);
+  checkTable(*dt, "read");
   if (dt->hasColumnNames()) { use(dt->getColumnNames()); for (size_t j = 0; j < nc; ++j) { use(dt->getColumnName(j)); use(dt->getColumn(dt->getColumnName(j))); use(dt->hasColumn(dt->getColumnName(j))); } }
   if (dt->hasRowNames()) { use(dt->getRowNames()); for (size_t i = 0; i < nr; ++i) { use(dt->getRowName(i)); use(dt->getRow(dt->getRowName(i))); use(dt->hasRow(dt->getRowName(i))); } }
   for (size_t i = 0; i < nr; ++i) { use(dt->getRow(i)); for (size_t j = 0; j < nc; ++j) use((*dt)(i, j)); }
@@ -472,6 +546,43 @@ inline void t_table(In& in)
     if (++steps > 16) break;
     size_t k = static_cast<unsigned char>(e) / 8 % 8;
     std::vector<std::string> vals;
+    if (static_cast<unsigned char>(e) >= 128)
+    {
+      // named / invalid edits (bytes >= 0x80; v = bit 6): every call in its own try, the sequence goes on after a rejected
+      // edit (wrong width, duplicate or unknown name, index out of range) and the invariants are checked after each step
+      bool v = (static_cast<unsigned char>(e) & 64) != 0;
+      std::string rk = "r" + std::to_string(k), ck = "c" + std::to_string(k);
+      const DataTable& cdt = *dt;
+      switch (static_cast<unsigned char>(e) % 8)
+      {
+      case 0: vals.assign(v ? dt->getNumberOfColumns() : k, "n"); tryIt([&] { dt->addRow(rk, vals); }); break;
+      case 1: vals.assign(v ? dt->getNumberOfRows() : k, "m"); tryIt([&] { dt->addColumn(ck, vals); }); break;
+      case 2: if (v) tryIt([&] { dt->deleteRow(dt->getRowName(k)); }); else tryIt([&] { dt->deleteRow(rk); }); break;
+      case 3: if (v) tryIt([&] { dt->deleteColumn(dt->getColumnName(k)); }); else tryIt([&] { dt->deleteColumn(ck); }); break;
+      case 4:
+        tryIt([&] { std::vector<std::string> nm; for (size_t i = 0; i < (v ? dt->getNumberOfRows() : k); ++i) nm.push_back("r" + std::to_string(i)); dt->setRowNames(nm); });
+        // (setRowName on a table without row names is not driven: DataTable::setRowName indexes the empty name list - see notes/C16.md)
+        if (dt->hasRowNames()) tryIt([&] { dt->setRowName(k, v ? "r0" : "q" + std::to_string(k)); });
+        break;
+      case 5:
+        tryIt([&] { std::vector<std::string> nm; for (size_t i = 0; i < (v ? dt->getNumberOfColumns() : k); ++i) nm.push_back("c" + std::to_string(i)); dt->setColumnNames(nm); });
+        break;
+      case 6:
+        tryIt([&] { use(dt->hasRow(rk)); use(dt->getRow(rk)); });
+        tryIt([&] { use(dt->hasColumn(ck)); use(dt->getColumn(ck)); use(cdt.getColumn(ck)); });
+        tryIt([&] { use((*dt)(rk, ck)); }); tryIt([&] { use(cdt(rk, ck)); });
+        tryIt([&] { use((*dt)(rk, k)); }); tryIt([&] { use(cdt(rk, k)); });
+        tryIt([&] { use((*dt)(k, ck)); }); tryIt([&] { use(cdt(k, ck)); });
+        tryIt([&] { use((*dt)(k, k)); }); tryIt([&] { use(cdt(k, k)); });
+        break;
+      default:
+        vals.assign(v ? dt->getNumberOfColumns() : k + 1, "s"); tryIt([&] { dt->setRow(k, vals); });
+        vals.assign(v ? dt->getNumberOfColumns() + 1 : dt->getNumberOfColumns(), "t"); tryIt([&] { dt->addRow(vals); });
+        vals.assign(v ? dt->getNumberOfRows() + 1 : dt->getNumberOfRows(), "u"); tryIt([&] { dt->addColumn(vals); });
+      }
+      checkTable(*dt, "edit byte " + std::to_string(static_cast<unsigned char>(e)) + " (step " + std::to_string(steps) + ")");
+      continue;
+    }
     switch (static_cast<unsigned char>(e) % 8)
     {
     case 0: tryIt([&] { dt->deleteColumn(k); }); break;
@@ -487,12 +598,14 @@ inline void t_table(In& in)
     default:
       tryIt([&] { use(dt->getRow("r" + std::to_string(k))); use(dt->getColumn("c" + std::to_string(k))); dt->deleteRow("r" + std::to_string(k)); dt->deleteColumn("c" + std::to_string(k)); });
     }
+    checkTable(*dt, "edit byte " + std::to_string(static_cast<unsigned char>(e)) + " (step " + std::to_string(steps) + ")");
   }
   std::ostringstream os;
   DataTable::write(*dt, os, sep, op & 16);
   use(os.str());
   DataTable copy(*dt);
   use(copy.getNumberOfRows());
+  checkTable(copy, "copy");
 }
 
 // ------------------------------------------------------------------ 7. distribution descriptions
